@@ -66,6 +66,17 @@ theorem put_truthful (fuel : Nat) (initial : List NodeInfo) (key : Bytes) (ask :
 theorem responder_list_capped (reqLimit : Nat) : findNodeLimit reqLimit ≤ 10 ∧ findNodeLimit reqLimit ≤ reqLimit := by
   unfold findNodeLimit; split <;> omega
 
+/-- ⊢ find-node never uses a record that failed validation: every node it contacts (and the node it reports as
+    closest) is an initial peer — the caller's own, never validated — or a record from some answer that passed the
+    caller's `validate`. (A seeded change that let every second of two adjacent invalid records through was what made
+    this theorem worth stating: seeded/C20-validate-delete-skip.) -/
+theorem findnode_only_validated (fuel : Nat) (initial : List NodeInfo) (target : Bytes)
+    (validate : NodeInfo → Bool) (ask : Responder) (st : St)
+    (h : findNode fuel initial target validate ask = some st) :
+    (∀ v ∈ st.visited, (∃ n ∈ initial, n.id = v) ∨ (∃ i n, ∃ m ∈ (ask i n).nodes, validate m = true ∧ m.id = v)) ∧
+    (∀ c, st.closest = some c → (c ∈ initial) ∨ (∃ i n, c ∈ (ask i n).nodes ∧ validate c = true)) :=
+  DHT.findnode_only_validated fuel initial target validate ask st h
+
 /-! ## the node that answers (`Model/DHTNode.lean`, p/kademlia/dht_node.go)
 
 What an honest responder guarantees to the iterative operations above. A node is reached from `Node.new` by any
